@@ -37,6 +37,9 @@ def gen_receiver(rng, kind):
         panels = [{"stiff": hx(rng.choice([50.0, 200.0])), "tubes": [tube(rng, 1, 3000.0, 1, 1.0), tube(rng, 2, 3000.0, 3, 0.8)]},
                   {"stiff": "rigid", "tubes": [tube(rng, 2, 3000.0, 1, 0.6), tube(rng, 1, 3000.0, 1, 1.2)]}]
         rstiff = hx(rng.choice([100.0, 400.0]))
+    elif kind == "tiny":        # two 1D tubes tied into one sub-network (solved in this process, or edge by edge in workers)
+        panels = [{"stiff": "rigid", "tubes": [tube(rng, 1, 3000.0, 1, 1.0), tube(rng, 1, 3000.0, 2, 0.8)]}]
+        rstiff = "disconnect"
     else:                       # two sub-networks of different size
         panels = [{"stiff": "rigid", "tubes": [tube(rng, 1, 3000.0, 1, 1.0), tube(rng, 1, 3000.0, 1, 0.8), tube(rng, 2, 3000.0, 1, 0.9)]},
                   {"stiff": "disconnect", "tubes": [tube(rng, 3, 2000.0, 1, 1.1)]}]
@@ -59,18 +62,24 @@ def run(ctx):
     if ctx.tier == "thorough":
         ctx.coqchk("C08")
     rng = ctx.rng
-    kinds = ["separate", "coupled"] if ctx.tier != "thorough" else ["separate", "coupled", "mixed", "separate", "coupled"]
+    # "-cutback": the full-length attempt of the second step is made to fail (in every process), so that the adaptive
+    # loop cuts that step into sub-increments
+    kinds = ["separate", "coupled", "tiny-cutback"] if ctx.tier != "thorough" else \
+        ["separate", "coupled", "mixed", "separate-cutback", "coupled-cutback", "separate", "coupled"]
     cases, groups = [], []
     for kind in kinds:
-        rec = gen_receiver(rng, kind)
+        rec = gen_receiver(rng, kind.split("-")[0])
         ntubes = sum(len(p["tubes"]) for p in rec["panels"])
         configs = [(1, False, False), (2, False, False), (3, True, True), (1, True, False), (ntubes, False, True)]
+        if kind == "tiny-cutback":
+            configs = [(1, False, False), (2, False, False), (1, True, True)]
         if ctx.tier == "thorough":
             configs += [(4, True, False), (2, True, True)]
         grp = []
         for (nth, page, prog) in configs:
             cases.append({"id": len(cases), "receiver": rec, "nthreads": nth, "page": page, "progress": prog, "material": "740H",
-                          "reliability": True, "kind": kind})
+                          "reliability": True, "kind": kind,
+                          "force_cutback": kind.endswith("cutback")})
             grp.append(len(cases) - 1)
         groups.append(grp)
     # the coupled (thermohydraulic) thermal solver has a pool of its own, one map per Picard iteration
